@@ -220,10 +220,18 @@ def oracle(case, impl):
                 if why:
                     return "keepstore returned block data with blob signing on: " + why
             return None
-        if signing and f[6] != "absent":
+        routed = re.fullmatch(rb"[0-9a-f]{32}(\+[^/]+)?", loc, re.S) is not None
+        remote = b"+R" in loc and b"+A" not in loc
+        if signing and routed and not remote:
             st = ref_strict(loc, tok, ttl, key)
-            if st and st[0] and st[1] >= FUT_MIN and re.fullmatch(rb"[0-9a-f]{32}", loc[:32]):
-                return "keepstore refused (%s) a stored block requested with a valid unexpired signature" % g[0]
+            if st and st[0] and st[1] >= FUT_MIN:
+                if f[6] != "absent":
+                    return "keepstore refused (%s) a stored block requested with a valid unexpired signature" % g[0]
+            elif st and st[1] <= PAST_MAX:
+                if g[0] != "401":
+                    return "keepstore answered %s, not 401, to a well-formed signature whose expiry has passed" % g[0]
+            elif g[0] != "403":
+                return "keepstore answered %s, not 403, to a missing/invalid signature" % g[0]
         return None
     if op == "put":
         body, tok, tok2, signing, ttl, key = U(f[1]), U(f[2]), U(f[3]), f[4] == "1", int(f[5]), U(f[6])
